@@ -9,36 +9,18 @@ From TD Require Import Model.C20_Apply Model.C20_Sched Model.C20_Spec
 Open Scope string_scope.
 
 (* ------------------------------------------------------------------ apply_spec *)
-(* the statement at full strength: for every dict-shaped self, all operands, every out=, every point of the lattice *)
-Definition C20_apply_spec_full_statement : Prop :=
+(* for every dict-shaped self (no key twice at any level), all other operands (permuted / missing / extra keys, nested
+   empties, non-tensor entries), every out=, every point of the option lattice and every function: if the call
+   returns, it returns what the reference says (None included).
+   (C20-b — the stand-in of a missing nested operand was taken from the parent level — is repaired in /repo: the
+   former hypothesis "no nested tensordict reuses a key of its parent level" is gone.) *)
+Theorem C20_apply_spec :
   forall A (o : opts) fn con propagate so sm sf (others : list (tree A)) out names r,
     wf_keys A sf = true ->
-    front A o fn con propagate (Node so sm sf) others out names = Ok r ->
-    ref_apply A o fn con (Node so sm sf) others out = ROk (option_map (erase_t A) r).
-
-(* proved on the complement of C20-b: without default=, or when no nested tensordict reuses a key of the level that
-   holds it (then the stand-in self.empty(recurse=True) of the parent level cannot be hit) *)
-Theorem C20_apply_spec_partial :
-  forall A (o : opts) fn con propagate so sm sf (others : list (tree A)) out names r,
-    wf_keys A sf = true ->
-    (o_default o = true -> nohit A sf = true) ->
     front A o fn con propagate (Node so sm sf) others out names = Ok r ->
     ref_apply A o fn con (Node so sm sf) others out = ROk (option_map (erase_t A) r).
 Proof. exact apply_spec. Qed.
-Print Assumptions C20_apply_spec_partial.
-
-(* /repo violates the full statement (C20-b): fn receives an empty tensordict where the default is due *)
-Theorem C20_apply_spec_refuted :
-  exists (o : opts) fn so sm sf (others : list (tree Z)) r,
-    wf_keys Z sf = true /\ o_default o = true /\ nohit Z sf = false /\
-    front Z o fn false false (Node so sm sf) others None None = Ok r /\
-    ref_apply Z o fn false (Node so sm sf) others None <> ROk (option_map (erase_t Z) r).
-Proof.
-  destruct skeleton_hit_witness as (W & H & r & F & R).
-  exists (with_default base_opts), (fn_of []), (Old 10%Z), m0, (FCons "n" (Node (Old 11%Z) m0 (FCons "n" (lf 1) FNil)) FNil), [other_b], r.
-  repeat split; assumption.
-Qed.
-Print Assumptions C20_apply_spec_refuted.
+Print Assumptions C20_apply_spec.
 
 (* ------------------------------------------------------------------ apply_mutates_only *)
 (* not in place: every object of the caller that occurs in the result is an object of out= (none without out=), and
@@ -94,12 +76,13 @@ Definition C20_mt_equals_st_full_statement : Prop :=
     = st_front A o fn con propagate (Node so sm sf) others out names.
 
 (* proved for every point of the lattice — out=, default=, filter_empty None / True / False, names=, batch size and device
-   overrides, checked, call_on_nested, named, every is_leaf — outside two corners: a non-tensor entry together with
-   out= or inplace (C20-f), and inplace together with default= (self.empty(recurse=True) taken while self is written).
-   (S15, S16, C12-b, C12-c and C20-d of the notes were real and are repaired in /repo: the model follows the repaired code.) *)
+   overrides, checked, call_on_nested, named, every is_leaf — when self holds no non-tensor entry or the call is neither
+   in place nor given out=.  What is missing: an untouched non-tensor entry is re-created by the two forms from different
+   sources (a copy of self's entry / the tensorclass wrapper around out[key] or around the entry itself), so its METADATA
+   can differ when nothing is validated on the way in (checked) — see the witness below; its data agree since C20-f. *)
 Theorem C20_mt_equals_st_partial :
   forall A (o : opts) fn con propagate so sm sf (others : list (tree A)) out names pi,
-    (o_inplace o = true -> o_default o = false /\ nont_free A sf = true) ->
+    (o_inplace o = true -> nont_free A sf = true) ->
     (out <> None -> nont_free A sf = true) ->
     (forall tasks lfs, flat_items A o (o_default o) con [] sm sf others sf 0%nat = Ok (tasks, lfs) ->
                        forall id, (id < List.length tasks)%nat -> In id pi) ->
@@ -112,38 +95,27 @@ Theorem C20_mt_equals_st_partial :
 Proof. exact mt_equals_st. Qed.
 Print Assumptions C20_mt_equals_st_partial.
 
-(* /repo violates the full statement (C20-f): a non-tensor entry that out= already holds *)
+(* the full statement is false of the model (and of /repo, finding C20-g): the metadata of a non-tensor entry re-created
+   under out= (here with checked, where nothing evens it out) *)
 Theorem C20_mt_equals_st_refuted :
   exists (o : opts) fn self out pi m f m' f',
-    st_front Z o fn false false self [] (Some out) None = MOk (Some (Node (Old 30%Z) m f))
-    /\ fget Z f "t" = Some (NonT (Old 32%Z) 50%Z m0)
+    o_checked o = true
+    /\ st_front Z o fn false false self [] (Some out) None = MOk (Some (Node (Old 30%Z) m f))
+    /\ fget Z f "t" = Some (NonT New 5%Z m0)
     /\ mt_front Z o fn false false self [] (Some out) None pi = MOk (Some (Node (Old 30%Z) m' f'))
-    /\ fget Z f' "t" = Some (NonT New 5%Z m0).
-Proof. destruct mt_nontensor_out_witness as (m & f & m' & f' & H). exists (with_checked base_opts), (fn_of []), self_f, out_f, [0%nat], m, f, m', f'. exact H. Qed.
+    /\ fget Z f' "t" = Some (NonT New 5%Z (mkMeta [3%nat] (Some CPU) None false)).
+Proof.
+  destruct mt_nontensor_out_witness as (m & f & m' & f' & H1 & H2 & H3 & H4).
+  exists (with_checked base_opts), (fn_of []), self_f, out_g, [0%nat], m, f, m', f'. repeat split; assumption.
+Qed.
 Print Assumptions C20_mt_equals_st_refuted.
-
-(* ------------------------------------------------------------------ two more defects of the front-ends *)
-Theorem C20_inplace_locked_nontensor_refuted :  (* C20-c *)
-  exists (o : opts) fn self x,
-    o_inplace o = true
-    /\ front Z o fn false false self [] None None = Raised EValue
-    /\ ref_apply Z o fn false self [] None = ROk (Some x).
-Proof. destruct inplace_locked_nontensor_witness as (H1 & x & H2). do 4 eexists. split; [|split; [exact H1|exact H2]]. reflexivity. Qed.
-Print Assumptions C20_inplace_locked_nontensor_refuted.
-
-Theorem C20_named_apply_out_refuted :           (* C20-a *)
-  exists (o : opts) fn self out oid m f m' f',
-    front Z o fn false false self [] (Some out) None = Ok (Some (Node (Old oid) m f))
-    /\ named_apply_front Z o fn false false self [] (Some out) None = Ok (Some (Node New m' f')).
-Proof. destruct named_apply_out_witness as ((m & f & H1) & (m' & f' & H2)). do 9 eexists. split; [exact H1|exact H2]. Qed.
-Print Assumptions C20_named_apply_out_refuted.
 
 (* ------------------------------------------------------------------ non-vacuity *)
 (* a three-level self with a non-tensor entry, a nested empty node, an operand with permuted / extra / missing keys, default=,
-   filter_empty=None and a None result: inside the domain of C20_apply_spec_partial, and the call returns *)
+   filter_empty=None and a None result: inside the domain of C20_apply_spec, and the call returns *)
 Example C20_ex_apply_spec :
   let o := with_default (with_fe base_opts None) in
-  wf_keys Z self_ex_forest = true /\ nohit Z self_ex_forest = true
+  wf_keys Z self_ex_forest = true
   /\ exists x, front Z o (fn_of [3%Z]) false false self_ex [other_ex] None None = Ok (Some x)
                /\ List.length (fkeys Z (match x with Node _ _ f => f | _ => FNil end)) = 2%nat.
 Proof. exact example_apply_spec. Qed.
@@ -175,3 +147,18 @@ Example C20_ex_mt_former_defects :
   /\ (let o := with_dev (with_checked base_opts) (Some META) in
       mt_front Z o (fn_of []) false false self_a [] (Some out_dev) None [0%nat] = st_front Z o (fn_of []) false false self_a [] (Some out_dev) None).
 Proof. exact mt_former_defects_agree. Qed.
+
+(* the former defects of the front-ends (C20-b, C20-c, C20-f; C20-a is the forwarding of out= by named_apply, which the
+   harness exercises): the model of the repaired code on their witnesses *)
+Example C20_ex_former_front_defects :
+  (let o := with_default base_opts in
+   exists r, front Z o (fn_of []) false false self_b [other_b] None None = Ok r
+             /\ ref_apply Z o (fn_of []) false self_b [other_b] None = ROk (option_map (erase_t Z) r)
+             /\ option_map (erase_t Z) r
+                = Some (SNode Z (SCons Z "n" (SNode Z (SCons Z "n" (SLeaf Z (SNew Z 102%Z)) (SNil Z))) (SNil Z))))
+  /\ (let o := with_inplace base_opts in
+      exists x, front Z o (fn_of []) false false self_c [] None None = Ok (Some x) /\ shape_t Z x = shape_t Z self_c)
+  /\ (let o := base_opts in
+      exists m f, front Z o (fn_of []) false false self_f [] (Some out_f) None = Ok (Some (Node (Old 30%Z) m f))
+                  /\ fget Z f "t" = Some (NonT New 5%Z m0)).
+Proof. exact former_front_defects. Qed.
